@@ -62,6 +62,20 @@ class RefBudget(Exception):
     pass
 
 
+class _Trace(list):
+    """The reference trace; remembers the source line of the statement
+    that produced each entry."""
+
+    def __init__(self, interp):
+        list.__init__(self)
+        self.interp = interp
+        self.lines = []
+
+    def append(self, entry):
+        list.append(self, entry)
+        self.lines.append(self.interp.cur_line)
+
+
 class Cell:
     __slots__ = ('t', 'v')
 
@@ -260,7 +274,7 @@ class Interp:
         self.seeds = seeds or {}
         self.inkeys = list(inkeys)
         self.peeks = list(peeks)
-        self.trace = []
+        self.trace = _Trace(self)
         self.budget = budget
         self.steps = 0
         self.n_beeps = 0
@@ -576,12 +590,14 @@ class Interp:
             ret = Cell(vtype(sub.name))
             fr['ret'] = ret
         self.frames.append(fr)
+        caller_line = self.cur_line
         try:
             try:
                 self.block(sub.body)
             except _Exit as x:
                 if x.kind not in ('sub', 'function'):
                     raise
+            self.cur_line = caller_line
         finally:
             self.frames.pop()
         if is_function:
@@ -614,10 +630,15 @@ class Interp:
         ln = line_of(self.prog, s)
         while True:
             self.tick()
+            saved = self.cur_line
             if ln is not None:
                 self.cur_line = ln
             try:
                 self._stmt(s)
+                # statements executed by procedures called from this one
+                # have moved cur_line; the caller's line is current again
+                if saved is not None and len(self.frames) > 1 and False:
+                    self.cur_line = saved
                 return
             except QBError as e:
                 if e.line is None:
@@ -807,7 +828,12 @@ class Interp:
             try:
                 self.assign(var, vt, _check(vt, cur + step))
             except QBError as e:
-                e.line = line_of(self.prog, s)  # attributed to FOR/NEXT
+                # the increment belongs to the NEXT statement
+                e.line = None
+                for ln, t in self.prog.lines:
+                    if isinstance(t, tuple) and len(t) == 2 and \
+                            t[0] == 'next' and t[1] is s:
+                        e.line = ln
                 raise
 
     def do_loop(self, s):
